@@ -336,6 +336,7 @@ pub fn run(tier: &str) -> i32 {
             }
         }
     }
+    release_ports();
     println!(
         "C13S-RESULT {}",
         json!({"launches":launches,"faults":faults.len(),"refused":refused,"started_equal":started_equal,"directories":dirs.len(),"outcomes":outcomes,"violations":viol.to_json()})
